@@ -772,9 +772,29 @@ func (p *Program) growCap(elemT types.Type, oldCap, newLen int) int {
 }
 
 // appendValues implements append(s, elems...) with Go's aliasing and growth.
+// needsCopy reports element types whose values are mutable aggregates (struct / array spines).
+func needsCopy(t types.Type) bool {
+	if atomicStruct(t) {
+		return false
+	}
+	switch t.Underlying().(type) {
+	case *types.Struct, *types.Array:
+		return true
+	}
+	return false
+}
+
 func (p *Program) appendValues(elemT types.Type, s []value, elems []value) []value {
 	if len(elems) == 0 {
 		return s
+	}
+	if needsCopy(elemT) {
+		// element values are copied into the slice (struct and array spines must not be shared)
+		cp := make([]value, len(elems))
+		for i, e := range elems {
+			cp[i] = copyVal(elemT, e)
+		}
+		elems = cp
 	}
 	n := len(s) + len(elems)
 	if n <= cap(s) {
@@ -1166,7 +1186,20 @@ func (ex *exec) callBuiltin(caller *frame, callpos token.Pos, fn *ssa.Builtin, a
 		if jb, ok := src.(*jsonBlob); ok {
 			src = jb.bytes()
 		}
-		return copy(args[0].([]value), src.([]value))
+		dst := args[0].([]value)
+		srcv := src.([]value)
+		if st, ok := fn.Type().(*types.Signature).Params().At(0).Type().Underlying().(*types.Slice); ok && needsCopy(st.Elem()) {
+			n := len(dst)
+			if len(srcv) < n {
+				n = len(srcv)
+			}
+			tmp := make([]value, n)
+			for i := 0; i < n; i++ {
+				tmp[i] = copyVal(st.Elem(), srcv[i])
+			}
+			return copy(dst, tmp)
+		}
+		return copy(dst, srcv)
 
 	case "close":
 		c := args[0].(*gochan)
